@@ -8,6 +8,7 @@ PROPS = {
         'level': 'proof',
         'trusted_base': COMMON_TB,
         'assumptions': [
+            'added after seeding round 4 (BOUNDED): strict prefixes of generated transaction encodings raise the truncation error (tx_prefix_truncated, 700 per run) and extensions the extra-data error (tx_extension_refused); a mutable transaction serialised and hashed before and edited since serialises to the prescribed bytes of its current field values (mutable_tx_reserialized; the target is resolved through the live class, so a serialize() override is met)',
             'struct.pack/unpack of fixed-width integers = abstract little-endian codec le_n/unle_n with inverse axioms (assumed built-in contract, conformance-tested)',
             'io.BytesIO modelled as (data, pos) with read/write/tell/seek/getvalue contracts; writes only at end of buffer',
             'script/witness-item lengths and vector counts below 2^64 (serialiser) and length fields <= MAX_SIZE 0x02000000 (deserialiser; larger fields raise SerializationError by design)',
@@ -49,6 +50,7 @@ PROPS = {
         'level': 'other',
         'trusted_base': COMMON_TB,
         'assumptions': [
+            'added after seeding round 4 (BOUNDED): raw_sighash_after_edit - the digest of a mutable transaction that was hashed before (legacy and BIP143) and edited since',
             'BOUNDED, not proved: RawSignatureHash / SignatureHash(BASE) against the executable reference of the original consensus algorithm (specs/sighash.py), 800 generated (transaction, subscript, index, hash type) cases per run: mutable and immutable transactions, 0-3 inputs/outputs plus 252/253, CODESEPARATORs inside and outside push data, index = len(vin) and beyond, SINGLE without matching output, undefined hash-type bytes; the frame (transaction untouched, field by field) is part of the same bounded check',
             'reason: the function mutates objects held in symbolic-length lists of a private copy; the engine has no array-heap model for that (DESIGN.md section 9)',
             'KNOWN FINDING (not repaired): the legacy branch asserts on witness-program-shaped subscripts; excluded by precondition, replayed on every run',
@@ -67,6 +69,7 @@ PROPS = {
         'level': 'proof',
         'trusted_base': COMMON_TB,
         'assumptions': [
+            'added after seeding round 4 (BOUNDED): sighash_witness_v0_generated (600 generated cases per run: 1-3 inputs, 0-3 outputs - transactions WITHOUT outputs included -, mutable and immutable, every hash-type byte sampled) is also the generator of the stand-in of the proved unit; sighash_witness_v0_after_edit hashes a mutable transaction, edits the same object (outputs, inputs, sequence numbers, lock time, version) and compares the second digest with the BIP143 reference',
             'SHA-256 uninterpreted (same symbol in code and spec)',
             'struct.pack contracts; BytesIO contract',
             'C01 serialiser contracts (proved there) are used at call sites',
@@ -325,6 +328,7 @@ PROPS = {
         'level': 'other',
         'trusted_base': COMMON_TB,
         'assumptions': [
+            "added after seeding round 4: generated filters carry hash-function counts above the constructor's cap (51, 60, 200), as can arrive from the wire",
             'BOUNDED + ASSUMED at call sites: MurmurHash3 = published MurmurHash3_x86_32 (reference in specs/bloom.py), 1500 generated (seed, data) pairs per run covering every length mod 4',
             'BOUNDED: bits set by insert = BIP37 schedule over the reference hash, contains after insert, empty and full (0xff) filters; constructor caps (float sizing); wire round trip incl. membership answers - 600 generated cases each',
             'the bit-level effect of insert/contains is not proved (only index safety, frames and the empty-data rule are); bit operations on symbolic bytes are handled by an 8-way case split on the mask',
